@@ -539,6 +539,13 @@ func unpackNodes(node *yaml.Node) []*yaml.Node {
 			continue
 		}
 		if isMerge {
+			if part.ShortTag() != mergeTag || part.Value != "<<" {
+				// This is the value of a merge key that is not an alias.
+				if part.Kind == yaml.MappingNode {
+					nodes = append(nodes, resolveMapAlias(&yaml.Node{Kind: yaml.AliasNode, Alias: part}, node).Content...)
+				}
+				isMerge = false
+			}
 			continue
 		}
 		nodes = append(nodes, part)
